@@ -307,8 +307,7 @@ class SimpleARTMAP(BaseARTMAP):
             j = 0
         else:
             j = len(self.labels_)
-            self.labels_ = np.pad(self.labels_, [(0, X.shape[0])], mode="constant")
-            self.labels_[j:] = y
+            self.labels_ = np.concatenate([self.labels_, y])
             self.module_a.labels_ = np.pad(
                 self.module_a.labels_, [(0, X.shape[0])], mode="constant"
             )
